@@ -165,3 +165,34 @@ Proof.
   apply (slits_forest_mid [] pre _ post []). rewrite Hc, slits_tree_Otherwise. cbn [branch_lits map app].
   apply (slits_forest_mid [] bpre (MemAssign m a dd e) bpost []). left. reflexivity.
 Qed.
+
+(* ------------------------------------------------------------------ integer right-hand sides *)
+Theorem coerce_int_some : forall w v x, 0 < w -> coerce_int w v = Some x ->
+  0 <= x < 2 ^ w /\ x mod 2 ^ w = v mod 2 ^ w /\ - 2 ^ (w - 1) <= v < 2 ^ w.
+Proof.
+  intros w v x Hw H. unfold coerce_int in H.
+  assert (Hp : 2 ^ w = 2 * 2 ^ (w - 1)).
+  { replace w with (1 + (w - 1)) at 1 by lia. rewrite Z.pow_add_r by lia. reflexivity. }
+  assert (Hpos : 0 < 2 ^ (w - 1)) by (apply Z.pow_pos_nonneg; lia).
+  destruct (0 <=? v) eqn:E0.
+  - apply Z.leb_le in E0. destruct (v <? 2 ^ w) eqn:E1; [|discriminate].
+    apply Z.ltb_lt in E1. injection H as <-. repeat split; lia.
+  - apply Z.leb_gt in E0. destruct (- 2 ^ (w - 1) <=? v) eqn:E1; [|discriminate].
+    apply Z.leb_le in E1. injection H as <-. repeat split; try lia.
+    rewrite <- (Z.mul_1_l (2 ^ w)) at 1. apply Z.mod_add. lia.
+Qed.
+
+Theorem coerce_int_none : forall w v, 0 < w ->
+  (coerce_int w v = None <-> v >= 2 ^ w \/ v < - 2 ^ (w - 1)).
+Proof.
+  intros w v Hw. unfold coerce_int.
+  assert (Hpos : 0 < 2 ^ (w - 1)) by (apply Z.pow_pos_nonneg; lia).
+  assert (Hpos2 : 0 < 2 ^ w) by (apply Z.pow_pos_nonneg; lia).
+  destruct (0 <=? v) eqn:E0.
+  - apply Z.leb_le in E0. destruct (v <? 2 ^ w) eqn:E1.
+    + apply Z.ltb_lt in E1. split; [discriminate|lia].
+    + apply Z.ltb_ge in E1. split; [lia|reflexivity].
+  - apply Z.leb_gt in E0. destruct (- 2 ^ (w - 1) <=? v) eqn:E1.
+    + apply Z.leb_le in E1. split; [discriminate|lia].
+    + apply Z.leb_gt in E1. split; [lia|reflexivity].
+Qed.
